@@ -82,7 +82,9 @@ def run_plan(plan: dict, timeout: float = 300.0) -> dict:
     {"status": "ok", "result": ...} | {"status": "timeout"} | {"status": "died", "rc":..., "stderr":...}
     Raises HarnessFailure for simulator errors."""
     data = json.dumps(plan, sort_keys=True, separators=(",", ":"))
-    cmd = ["setarch", ARCH, "-R", PY, "-X", "utf8", "-m", "sim.exec"]
+    cmd = [PY, "-X", "utf8", "-m", "sim.exec"]
+    if not plan.get("aslr"):
+        cmd = ["setarch", ARCH, "-R"] + cmd
     try:
         p = subprocess.run(
             cmd,
